@@ -5,6 +5,7 @@ pub mod c01;
 pub mod c02;
 pub mod c03;
 pub mod c04;
+pub mod c12;
 
 #[derive(Clone, Copy, PartialEq, Eq, Debug)]
 pub enum Tier {
@@ -28,6 +29,7 @@ pub fn checks(id: &str, tier: Tier) -> Option<Vec<Check>> {
         "C02" => Some(c02::checks(tier)),
         "C03" => Some(c03::checks(tier)),
         "C04" => Some(c04::checks(tier)),
+        "C12" => Some(c12::checks(tier)),
         _ => None,
     }
 }
